@@ -29,6 +29,9 @@ func (sn *Snap) RoutingQuiescent() (bool, string) {
 		if !n.Up {
 			continue
 		}
+		if n.Booting {
+			return false, fmt.Sprintf("r%d has not finished booting", i)
+		}
 		if len(s.Parked(i, KAdvData)) > 0 {
 			return false, fmt.Sprintf("r%d has a parked advertisement fetch", i)
 		}
@@ -40,7 +43,7 @@ func (sn *Snap) RoutingQuiescent() (bool, string) {
 				return false, fmt.Sprintf("r%d still lists r%d, which it cannot hear", i, j)
 			}
 			seen++
-			if r := sn.rel(v); r != "fresh" {
+			if r := sn.relAt(i, v); !relFresh(r) {
 				return false, fmt.Sprintf("r%d holds an advertisement of r%d that differs from r%d's current one (%s)", i, j, j, r)
 			}
 		}
